@@ -88,7 +88,7 @@ class Ctx:
         if os.path.exists(vfile):
             with open(vfile) as f:
                 names = re.findall(r"^(?:Theorem|Lemma|Example|Corollary)\s+([A-Za-z0-9_']+)", f.read(), re.M)
-        bad = lint_coq()
+        bad = lint_coq(dependency_closure(vfile))
         self.obligations.append("lint:no Admitted/admit/Axiom/Parameter/Conjecture/unset checks in coq/theories")
         if bad:
             self.broken.append(("lint", "forbidden construct in the Coq development", "\n".join(bad[:10])))
@@ -292,15 +292,37 @@ _FORBIDDEN = re.compile(
     r"Unset\s+(Guard Checking|Positivity Checking|Universe Checking)|bypass_check|-type-in-type|-impredicative-set")
 
 
-def lint_coq():
-    """forbidden constructs anywhere in the development (comments are stripped first); Variable/Hypothesis must be
-    inside a Section"""
+def dependency_closure(vfile):
+    """the .v files a file depends on (transitively, within the Delb development), itself included"""
+    seen, todo = set(), [vfile]
+    pat = re.compile(r"From\s+Delb\.([A-Za-z0-9_]+)\s+Require\s+(?:Import|Export)?\s*([A-Za-z0-9_\s]+)\.")
+    pat2 = re.compile(r"Require\s+(?:Import|Export)?\s*((?:Delb\.[A-Za-z0-9_.]+\s*)+)\.")
+    while todo:
+        f = todo.pop()
+        if f in seen or not os.path.exists(f):
+            continue
+        seen.add(f)
+        with open(f, encoding="utf-8", errors="replace") as fh:
+            text = fh.read()
+        for m in pat.finditer(text):
+            for mod in m.group(2).split():
+                todo.append(os.path.join(COQ, "theories", m.group(1), mod + ".v"))
+        for m in pat2.finditer(text):
+            for q in m.group(1).split():
+                parts = q.split(".")[1:]
+                todo.append(os.path.join(COQ, "theories", *parts) + ".v")
+    return sorted(seen)
+
+
+def lint_coq(paths=None):
+    """forbidden constructs in the given files (default: the whole development); comments are stripped first;
+    Variable/Hypothesis must be inside a Section"""
     bad = []
-    for root, _, files in os.walk(os.path.join(COQ, "theories")):
-        for fn in files:
-            if not fn.endswith(".v"):
-                continue
-            path = os.path.join(root, fn)
+    if paths is None:
+        paths = [os.path.join(root, fn) for root, _, files in os.walk(os.path.join(COQ, "theories"))
+                 for fn in files if fn.endswith(".v")]
+    for path in paths:
+        if True:
             with open(path, encoding="utf-8", errors="replace") as f:
                 text = f.read()
             # strip (nested) comments and string literals
